@@ -75,55 +75,8 @@ func checkC19(p *Prog, r *Report) {
 	if len(w.Upgrades) == 0 {
 		return
 	}
-	base, why := firstUpgradeBaseline(p, w.Upgrades[0].Pkg)
-	if why != "" {
-		r.Undecided(kp("WIRE", "baseline"), "the module set predating the first descriptor is the version map of the first upgrade handler", shortPkg(w.Upgrades[0].Pkg), why)
+	if !checkStoreDescriptors(p, r, kp, w) {
 		return
-	}
-	r.Floor("baseline-modules", len(base), 20)
-	// D1 accounting: simulate the store set through the upgrades
-	// (the baseline is a set of *modules*: a module that predates the first descriptor may still get its store later, e.g. crisis)
-	live := map[string]string{} // store or baseline module -> how it came to exist
-	for _, b := range base {
-		live[b] = "module predates " + w.Upgrades[0].Name
-	}
-	for _, u := range w.Upgrades {
-		for _, d := range u.Deleted {
-			delete(live, d)
-		}
-		for _, a := range u.Added {
-			if how, dup := live[a]; dup && strings.HasPrefix(how, "introduced by") {
-				r.Fail(kp("WIRE", "store:"+a+"#added-twice:"+u.Name), "no store is introduced by two descriptors", p.Pos(u.Pos), fmt.Sprintf("%q is Added by %s but already %s", a, u.Name, how))
-			}
-			live[a] = "introduced by " + u.Name
-		}
-		r.Check(u.Renamed == 0, kp("WIRE", "upgrade:"+u.Name+"#no-renames"), "no descriptor renames stores (renames are not tracked by this accounting)", p.Pos(u.Pos), "Renamed empty", "Renamed is used")
-	}
-	names := append([]string(nil), w.StoreKeys...)
-	sort.Strings(names)
-	for _, s := range names {
-		how, ok := live[s]
-		if !ok {
-			if m := w.StoreModule[s]; m != "" && m != s {
-				if h2, ok2 := live[m]; ok2 {
-					how, ok = h2+" (store key "+s+" of module "+m+")", true
-				}
-			}
-		}
-		r.Check(ok, kp("WIRE", "store:"+s+"#accounted"), "every mounted store predates the first descriptor or is introduced, and not later removed, by one of them", p.Pos(w.StoreKeyPos),
-			how, fmt.Sprintf("store %q is mounted by this binary but no upgrade descriptor Adds it (and it is not in the pre-upgrade module set %v): a node upgrading through the releases panics on an undeclared store (wrong app hash / 'initial version set to N but found earlier version')", s, len(base)))
-	}
-	// every Added store that is still live must be mounted
-	var lives []string
-	for s := range live {
-		lives = append(lives, s)
-	}
-	sort.Strings(lives)
-	for _, s := range lives {
-		if strings.HasPrefix(live[s], "introduced by") {
-			r.Check(has(w.StoreKeys, s), kp("WIRE", "store:"+s+"#introduced-and-mounted"), "every store a descriptor introduces (and none removes) is mounted by the binary", p.Pos(w.StoreKeyPos),
-				live[s], fmt.Sprintf("%q is %s but the binary does not mount it", s, live[s]))
-		}
 	}
 	// D2 names distinct; handler present
 	seen := map[string]bool{}
@@ -549,6 +502,33 @@ func checkC19(p *Prog, r *Report) {
 		}
 	}
 	r.Floor("upgrade-handler-closures", nH, len(hnames))
+	// D6b the upgrade block does not halt on what the chain's history left in the version map or in the stores: no unchecked type
+	// assertion and no map-element method call on a possibly missing module in the upgrade packages
+	{
+		nTA, bad := 0, 0
+		for _, fn := range p.ModFuncs {
+			if !InPkgs(fn, "app/upgrades") || fn.Blocks == nil || p.IsGenerated(fn) {
+				continue
+			}
+			for _, b := range fn.Blocks {
+				for _, in := range b.Instrs {
+					ta, ok := in.(*ssa.TypeAssert)
+					if !ok {
+						continue
+					}
+					nTA++
+					if !ta.CommaOk {
+						bad++
+						r.Fail(kp("PANIC", "upgrade-code#unchecked-type-assertion@"+FuncName(fn)), "upgrade code makes no unchecked type assertion (a module the running binary no longer has, or has in another shape, must not halt the upgrade block)", p.Pos(ta.Pos()),
+							fmt.Sprintf("%s asserts %s without the comma-ok form: on a chain whose version map names a module this binary does not register (or registers without that interface) the upgrade block panics and the chain halts", FuncName(fn), ta.AssertedType))
+					}
+				}
+			}
+		}
+		if bad == 0 {
+			r.OK(kp("PANIC", "upgrade-code#unchecked-type-assertion#none"), "upgrade code makes no unchecked type assertion", "app/upgrades", fmt.Sprintf("%d type assertions in the upgrade packages, all in comma-ok form", nTA))
+		}
+	}
 	// D7 legacy params subspaces: the v0.47 migration handler gives a key table to every subspace it knows by name and calls
 	// WithKeyTable(<zero table>) — a panic — on any other subspace without one. Every name registered with the params keeper is a
 	// case of that handler's switch, or a subspace whose own keeper installs its key table (IBC core and transfer).
@@ -619,4 +599,60 @@ func checkC19(p *Prog, r *Report) {
 			}
 		}
 	}
+}
+
+// checkStoreDescriptors (C19-D1, shared with C10: a node restarted at an upgrade height loads its stores through the descriptors —
+// a mounted store no descriptor introduces, or an introduced one that is not mounted, stops it from coming back up).
+func checkStoreDescriptors(p *Prog, r *Report, kp func(string, string) string, w *Wire) bool {
+	base, why := firstUpgradeBaseline(p, w.Upgrades[0].Pkg)
+	if why != "" {
+		r.Undecided(kp("WIRE", "baseline"), "the module set predating the first descriptor is the version map of the first upgrade handler", shortPkg(w.Upgrades[0].Pkg), why)
+		return false
+	}
+	r.Floor("baseline-modules", len(base), 20)
+	// D1 accounting: simulate the store set through the upgrades
+	// (the baseline is a set of *modules*: a module that predates the first descriptor may still get its store later, e.g. crisis)
+	live := map[string]string{} // store or baseline module -> how it came to exist
+	for _, b := range base {
+		live[b] = "module predates " + w.Upgrades[0].Name
+	}
+	for _, u := range w.Upgrades {
+		for _, d := range u.Deleted {
+			delete(live, d)
+		}
+		for _, a := range u.Added {
+			if how, dup := live[a]; dup && strings.HasPrefix(how, "introduced by") {
+				r.Fail(kp("WIRE", "store:"+a+"#added-twice:"+u.Name), "no store is introduced by two descriptors", p.Pos(u.Pos), fmt.Sprintf("%q is Added by %s but already %s", a, u.Name, how))
+			}
+			live[a] = "introduced by " + u.Name
+		}
+		r.Check(u.Renamed == 0, kp("WIRE", "upgrade:"+u.Name+"#no-renames"), "no descriptor renames stores (renames are not tracked by this accounting)", p.Pos(u.Pos), "Renamed empty", "Renamed is used")
+	}
+	names := append([]string(nil), w.StoreKeys...)
+	sort.Strings(names)
+	for _, s := range names {
+		how, ok := live[s]
+		if !ok {
+			if m := w.StoreModule[s]; m != "" && m != s {
+				if h2, ok2 := live[m]; ok2 {
+					how, ok = h2+" (store key "+s+" of module "+m+")", true
+				}
+			}
+		}
+		r.Check(ok, kp("WIRE", "store:"+s+"#accounted"), "every mounted store predates the first descriptor or is introduced, and not later removed, by one of them", p.Pos(w.StoreKeyPos),
+			how, fmt.Sprintf("store %q is mounted by this binary but no upgrade descriptor Adds it (and it is not in the pre-upgrade module set %v): a node upgrading through the releases panics on an undeclared store (wrong app hash / 'initial version set to N but found earlier version')", s, len(base)))
+	}
+	// every Added store that is still live must be mounted
+	var lives []string
+	for s := range live {
+		lives = append(lives, s)
+	}
+	sort.Strings(lives)
+	for _, s := range lives {
+		if strings.HasPrefix(live[s], "introduced by") {
+			r.Check(has(w.StoreKeys, s), kp("WIRE", "store:"+s+"#introduced-and-mounted"), "every store a descriptor introduces (and none removes) is mounted by the binary", p.Pos(w.StoreKeyPos),
+				live[s], fmt.Sprintf("%q is %s but the binary does not mount it", s, live[s]))
+		}
+	}
+	return true
 }
